@@ -11,3 +11,5 @@ import Verif.Props.C05
 import Verif.Props.C05Order
 import Verif.Model.TreeDist
 import Verif.Props.C15
+import Verif.Model.Heap
+import Verif.Props.C19
